@@ -1,6 +1,6 @@
 (* C13 — invariants of all reachable states and the property theorems (model follows /repo after
    the fix: commits d5b8825, eed7d46, b6c5394, fabe449). *)
-From Coq Require Import List ZArith Bool Lia Arith.
+From Coq Require Import List ZArith Bool Lia Arith Permutation.
 From LTV.C13 Require Import ParamsGen.
 From LTV.C13 Require Import Model ProofsList ProofsSite ProofsStep.
 Import ListNotations.
@@ -32,8 +32,7 @@ Lemma Inv_step s o : Inv s -> Inv (step s o).
 Proof.
   intros (Hm & Hs & Hi & Hl). destruct (step_spec s Hm o) as (a & _ & [c1 c2] & [new [e1 e2]]).
   unfold Inv. ssplit; auto.
-  - rewrite c1; assumption.
-  - rewrite e1. apply Forall_app. split; [| assumption]. eapply Forall_impl; [| exact e2]. apply step_site_site.
+  rewrite e1. apply Forall_app. split; [| assumption]. eapply Forall_impl; [| exact e2]. apply step_site_site.
 Qed.
 
 Lemma Inv_run ops : forall s, Inv s -> Inv (run s ops).
@@ -389,6 +388,7 @@ Proof.
       destruct Hev; subst ev; simpl; [exact b | exfalso; apply Hc; discriminate].
   - destruct skip_tracker; [| exfalso; apply Hc; exact I].
     unfold ctl_disable. destruct (negb (f_active (fl s))); [exact Hp |]. simpl. destruct Hev; subst ev; exact Hp.
+  - destruct (insert_op_facts s g) as (_ & h & _). simpl in h. rewrite h. exact Hp.
 Qed.
 
 Lemma pend_flag_current ev f : (ev = EvStarted \/ ev = EvCompleted) -> mask_excl f -> pend_flag ev f = true -> current_send_event f = ev.
@@ -536,3 +536,121 @@ Example min_interval_site_inhabited :
     r_src r = SrcTimer /\ t_fc (r_pre r) = 0 /\ t_sc (r_pre r) <> 0 /\ t_mi (r_pre r) = 3000 /\
     r_time r / usec = t_stl (r_pre r) + 3000.
 Proof. eexists. split; [vm_compute; left; reflexivity |]. vm_compute. repeat split; congruence. Qed.
+
+(* ------------------------------------------------------------------ tracker identities stay unique *)
+
+Definition ids (s : state) : list nat := map t_id (trs s).
+
+Lemma keeps_ids s s' : keeps s s' -> ids s' = ids s.
+Proof. intros (_&_&_&_&_&_&h). exact h. Qed.
+
+Lemma clear_stats_ids l : map t_id (clear_stats l) = map t_id l.
+Proof. unfold clear_stats. rewrite map_map. apply map_ext. reflexivity. Qed.
+
+Lemma ctl_enable_ids reset s : ids (ctl_enable reset s) = ids s.
+Proof.
+  unfold ids, ctl_enable. destruct (f_active (fl s)); [reflexivity |].
+  rewrite (proj1 (proj2 (proj2 (update_timeout_same _ _)))). destruct reset; simpl; [apply clear_stats_ids | reflexivity].
+Qed.
+
+Lemma do_timeout_ids s : ids (do_timeout s) = ids s.
+Proof. destruct (do_timeout_E s) as [_ (_ & k)]. apply keeps_ids. exact k. Qed.
+
+Lemma perform_ids s : ids (perform s) = ids s.
+Proof. unfold perform. destruct (tmo s); [| reflexivity]. destruct (z <=? now s); [apply do_timeout_ids | reflexivity]. Qed.
+
+Lemma step_ids s o : mask_excl (fl s) -> (forall g, o <> OInsert g) -> Permutation (ids (step s o)) (ids s).
+Proof.
+  intros Hm Hno.
+  assert (EQ : forall a b : list nat, a = b -> Permutation a b) by (intros; subst; apply Permutation_refl).
+  destruct o; simpl.
+  - apply EQ, ctl_enable_ids.
+  - apply EQ. unfold ids. rewrite (proj1 (proj2 (ctl_disable_facts s))). reflexivity.
+  - apply Permutation_refl.
+  - apply EQ, keeps_ids. apply send_start_event_spec.
+  - apply EQ, keeps_ids. apply send_stop_event_spec.
+  - apply EQ, keeps_ids. apply send_completed_event_spec.
+  - apply EQ, keeps_ids. apply (send_update_event_spec s Hm).
+  - unfold manual_request. destruct (tmo s); [| apply Permutation_refl]. apply EQ, keeps_ids. apply (send_update_event_spec s Hm).
+  - apply EQ. unfold ids. rewrite (proj1 (proj2 (start_requesting_facts s Hm))). reflexivity.
+  - apply EQ. unfold ids. rewrite (proj1 (proj2 (stop_requesting_facts s Hm))). reflexivity.
+  - apply EQ. unfold ids, tracker_enable. destruct (find_id (trs s) id); [| reflexivity]. destruct (t_en t); [reflexivity |].
+    match goal with |- context [if ?c then _ else if ?d then _ else _] => destruct c; [| destruct d] end;
+      try rewrite (proj1 (proj2 (proj2 (update_timeout_same _ _)))); simpl; apply upd_map; reflexivity.
+  - apply EQ. unfold ids, tracker_disable. destruct (find_id (trs s) id); [| reflexivity]. destruct (negb (t_en t)); [reflexivity |].
+    match goal with |- context [if ?c then _ else _] => destruct c end;
+      try rewrite (proj1 (proj2 (proj2 (update_timeout_same _ _)))); simpl; apply upd_map; reflexivity.
+  - unfold ids. simpl. apply Permutation_map, cycle_perm.
+  - unfold reply_success. destruct (find_id (trs s) id); [| apply Permutation_refl]. destruct (negb (t_busy t)); [apply Permutation_refl |].
+    match goal with |- context [ctl_receive_success ?e ?n ?y] => set (x := y); destruct (ctl_receive_success_facts e n x Hm) as (_ & h & _) end.
+    unfold ids. rewrite h. subst x. simpl. rewrite upd_map by reflexivity.
+    eapply Permutation_trans; [apply Permutation_map, promote_perm |]. rewrite upd_map by reflexivity. apply Permutation_refl.
+  - apply EQ. unfold reply_failure. destruct (find_id (trs s) id); [| reflexivity]. destruct (negb (t_busy t)); [reflexivity |].
+    simpl. destruct (negb (f_active (fl s))).
+    + unfold ids. simpl. rewrite upd_map by reflexivity. apply upd_map. reflexivity.
+    + rewrite do_timeout_ids. unfold ids. simpl. rewrite upd_map by reflexivity. apply upd_map. reflexivity.
+  - apply EQ. rewrite perform_ids. reflexivity.
+  - destruct (tmo s); [| apply Permutation_refl]. apply EQ. rewrite perform_ids. reflexivity.
+  - apply Permutation_refl.
+  - destruct skip_tracker; apply EQ; [apply ctl_enable_ids |].
+    rewrite (keeps_ids _ _ (proj1 (proj2 (proj2 (proj2 (proj2 (send_start_event_spec (ctl_enable true s)))))))). apply ctl_enable_ids.
+  - apply EQ. unfold ids. rewrite (proj1 (proj2 (ctl_disable_facts _))). destruct skip_tracker; [reflexivity |].
+    apply (keeps_ids s). apply send_stop_event_spec.
+  - exfalso. apply (Hno g). reflexivity.
+Qed.
+
+Lemma insert_ids_seq t l : t_id t = length l -> Permutation (map t_id l) (seq 0 (length l)) ->
+  Permutation (map t_id (insert_tracker t l)) (seq 0 (length (insert_tracker t l))).
+Proof.
+  intros Ht Hp. rewrite (Permutation_length (insert_perm t l)). change (length (t :: l)) with (S (length l)).
+  rewrite seq_S. rewrite Nat.add_0_l.
+  eapply Permutation_trans; [apply Permutation_map, insert_perm |]. change (map t_id (t :: l)) with (t_id t :: map t_id l). rewrite Ht.
+  eapply Permutation_trans; [apply perm_skip, Hp |]. apply Permutation_cons_append.
+Qed.
+
+(* identities are exactly 0 .. n-1 (a new tracker gets the next number) *)
+Definition ids_inv (s : state) : Prop := Permutation (ids s) (seq 0 (length (trs s))).
+
+Lemma ids_inv_step s o : mask_excl (fl s) -> ids_inv s -> ids_inv (step s o).
+Proof.
+  intros Hm Hi. unfold ids_inv in *.
+  assert (Hlen : forall x, length (trs x) = length (ids x)) by (intros; unfold ids; rewrite map_length; reflexivity).
+  destruct o;
+    try (match goal with |- Permutation (ids (step s ?o)) _ =>
+           pose proof (step_ids s o Hm ltac:(intros; discriminate)) as Hp;
+           rewrite (Hlen (step s o)), (Permutation_length Hp), <- Hlen;
+           exact (Permutation_trans Hp Hi) end).
+  simpl. match goal with |- context [insert_op ?g s] => destruct (insert_op_facts s g) as (_ & _ & _ & h) end.
+  unfold ids in *. rewrite h. apply insert_ids_seq; [reflexivity | exact Hi].
+Qed.
+
+Lemma ids_inv_run ops : forall s, Inv s -> ids_inv s -> ids_inv (run s ops).
+Proof.
+  induction ops as [| o ops IH]; intros s HI Hn; simpl; [assumption |].
+  apply IH; [apply Inv_step; assumption | apply ids_inv_step; [apply HI | assumption]].
+Qed.
+
+Lemma insert_all_ids_seq groups : forall id l,
+  length l = id -> Permutation (map t_id l) (seq 0 id) ->
+  Permutation (map t_id (insert_all id groups l)) (seq 0 (length (insert_all id groups l))).
+Proof.
+  induction groups as [| g r IH]; intros id l Hl Hp; simpl; [rewrite Hl; exact Hp |].
+  apply IH.
+  - rewrite (Permutation_length (insert_perm _ _)). simpl. rewrite Hl. reflexivity.
+  - pose proof (insert_ids_seq (new_tracker id g) l) as H. rewrite Hl in H.
+    rewrite (Permutation_length (insert_perm _ _)) in H. simpl in H. rewrite Hl in H. apply H; [reflexivity | exact Hp].
+Qed.
+
+(* tracker identities are unique in every reachable state, so the lookups by id used in the model
+   (find_id, upd) address exactly the tracker the code's handle points to *)
+Lemma ids_unique t0 groups ops : NoDup (map t_id (trs (run (init t0 groups) ops))).
+Proof.
+  assert (H : ids_inv (run (init t0 groups) ops)).
+  { apply ids_inv_run; [apply Inv_init |]. unfold ids_inv, ids, init. simpl.
+    apply insert_all_ids_seq; [reflexivity | apply Permutation_refl]. }
+  unfold ids_inv, ids in H. eapply Permutation_NoDup; [apply Permutation_sym, H | apply seq_NoDup].
+Qed.
+
+Lemma find_id_exact t0 groups ops t :
+  In t (trs (run (init t0 groups) ops)) -> find_id (trs (run (init t0 groups) ops)) (t_id t) = Some t.
+Proof. intros H. apply find_id_unique; [apply ids_unique | assumption]. Qed.
